@@ -132,7 +132,7 @@ pub fn geom_strategy(pick: FatPick) -> impl Strategy<Value = VolGeom> {
                     prop_oneof![2 => Just(0u16), 2 => (0u16..64), 1 => (64u16..3000)],
                     prop::bool::weighted(0.3),
                     any::<bool>(),
-                    prop_oneof![3 => Just(0u16), 1 => (1u16..8).prop_map(|x| x * 16)],
+                    prop_oneof![3 => Just(0u16), 2 => (1u16..8).prop_map(|x| x * 16), 2 => (17u16..260), 1 => Just(512u16)],
                 ),
             )
         })
